@@ -23,7 +23,7 @@ SCALARS = ["int", "float", "complex", "np.int64", "np.float64", "np.complex128",
            "str", "str_space", "str_digit", "str_pname", "str_backslash", "str_backslash2", "str_hash", "str_unicode", "str_brackets"]
 LISTS = ["list_int", "list_float", "list_npint", "list_npfloat", "list_mixed", "list_str", "list_complex", "list_bool", "list_npcomplex", "list_one"]
 ARRAYS = ["arr_int_1x1", "arr_int_2x3", "arr_float_2x2", "arr_float_1x3", "arr_complex_2x2", "arr_complex_1x1", "arr_float_3x1", "arr_int_2x2", "arr_int_1x3", "arr_complex_1x3",
-          "arr_float_1x1", "arr_float_1x4"]
+          "arr_float_1x1", "arr_float_1x4", "arr_float_1x12", "arr_int_11x1"]     # incl. dimensions of two digits
 # several arrays in one program whose values may coincide while shape or element type differ (the solver is free to make them equal)
 ARRAY_PAIRS = [("arr_float_2x2", "arr_int_2x2"), ("arr_int_2x2", "arr_float_2x2"), ("arr_float_1x3", "arr_complex_1x3"), ("arr_int_1x3", "arr_float_1x3"),
                ("arr_float_1x1", "arr_complex_1x1"), ("arr_int_1x1", "arr_float_1x1"), ("arr_float_2x2", "arr_float_1x4"), ("arr_float_2x2", "arr_float_2x2")]
@@ -33,7 +33,9 @@ EDGE = [-0.0, 1e-300, 1e300, 5e-324, 1e16, 1.5e-07, 123456789.125, -1e-05, compl
         np.float64(-0.0), np.float64(1e-310), np.complex128(complex(0.0, -0.0)), np.int64(-2 ** 63), 2 ** 62, np.float32(0.1) * 0 + 0.5]
 
 EDGE_PAIRS = [([[0.0, 1.0]], [[-0.0, 1.0]]), ([[1, 0], [0, 1]], [[1.0, 0.0], [0.0, 1.0]]), ([[0.0, 0.0]], [[0, 0]]), ([[1.0, 2.0]], [[1 + 0j, 2 + 0j]]),
-              ([[1, 0, 0, 1]], [[1, 0], [0, 1]]), ([[-0.0]], [[0.0]])]
+              ([[1, 0, 0, 1]], [[1, 0], [0, 1]]), ([[-0.0]], [[0.0]]),
+              ([[10 * r + c for c in range(10)] for r in range(10)], [[0.5 * r - c for c in range(10)] for r in range(12)]),
+              ([[1.5] * 101], [[complex(r, -r)] for r in range(100)])]
 
 TAGS = {"int": int, "float": float, "complex": complex, "np.int64": np.int64, "np.float64": np.float64, "np.complex128": np.complex128}
 
@@ -229,6 +231,8 @@ def gen_specs(tier, seed):
             specs.append(("val", slot, vk))
     for vk in ARRAYS:
         for slot in ("pos", "kw", "poskw"):
+            if slot == "poskw" and vk in ("arr_float_1x12", "arr_int_11x1"):
+                continue        # (two arrays of a dozen symbolic elements: path explosion in number formatting)
             specs.append(("val", slot, vk))
     for vk in LISTS:
         for slot in ("kw", "poskw"):
